@@ -25,9 +25,25 @@
      timely_ontime             the passes are on time when each comes no later than sigma after the time-out requested by the
                                previous pass (DeviceInv.timer_ok: that request covers the head's deadline)
 
-   The condition  T + sigma < last backoff_table  (= 60 s) is sharp: DeviceDeadlineBackoffEx.deadline_60s_refuted.
+     timely_b_ok               ... and that hypothesis is decidable on a concrete run (used by the examples)
+     retry_count_never_reset / passes_retry_count   over any run: retry_count' = retry_count + number of connect attempts
+
+   The condition  T + sigma < last backoff_table  (= 60 s) is sharp: DeviceDeadlineBackoffEx.deadline_60s_refuted (time-out 60 s,
+   the peer hangs up in the very pass the login's deadline wakes the daemon for: same trace on the real device.c).
    The statement "after ncheap connection establishments the run is steady" is FALSE (connections go on being established every
-   60 s for ever; what ends is the starvation of the queue): DeviceDeadlineBackoffEx.steady_after_cheap_steps_refuted. *)
+   60 s for ever; what ends is the starvation of the queue): DeviceDeadlineBackoffEx.steady_after_cheap_steps_refuted.
+
+   Why the potential works.  After every pass the head of the queue carries a stamp.  The first client-side action H can be kept
+   from the head only by a CHAIN of logins, each created in the pass that dropped its predecessor (hang-up + connect() succeeding
+   at once).  In a chain of on-time passes login k+1 is created no later than W after login k, but the gate lets it through only
+   backoff(retry_count) after the attempt that created login k: every link after the second uses up a cheap step, so a chain lasts
+   at most (ncheap + 2) * W.  When the chain ends H is the head again, gets its stamp (if it had none) and is examined: expired ->
+   the whole queue is reported; otherwise it is served, or the next chain starts - with fewer cheap steps left.
+
+   OPEN.  (1) The bound is not tight: for d5 it is 36 s, the worst history found ends at 28.6 s.  (2) A pass that is LATE (beyond
+   sigma): no per-pass increment is proved; pot_le bounds the potential of whatever state it leaves.  (3) Hang (the model's loop
+   fuel) is excluded by the hypothesis `passes .. = Ok`, as in DeviceDeadline (DeviceFuel.post_poll_one_no_hang gives it under its
+   own potential bound).  (4) For T + sigma >= 60 s there is no bound at all (F41). *)
 From Coq Require Import List NArith ZArith Bool Lia.
 From PM Require Import Base.Bytes Base.Outcome Base.Dec Gen.GenConsts Gen.GenCbuf Model.ScriptAst Model.Enqueue Model.Script Model.Device
   Proofs.DeviceProofs Proofs.DeviceStmt Proofs.DeviceStmtG Proofs.DeviceInv Proofs.DeviceInvG Proofs.DeviceMask Proofs.DeviceDeadline.
